@@ -18,9 +18,9 @@ def main():
     quick = chk.tier == "quick"
     toks = pegrun.tokens(chk.tier)
     wd = vlib.sub("c15")
-    trees, rows = pegrun.rendered_seeds(rnd, 120 if quick else 800, 3, wd)
+    trees, rows = pegrun.rendered_seeds(rnd, 120 if quick else 400, 3, wd)
     seeds = []
-    cap = 2500 if quick else 8000
+    cap = 2500 if quick else 6000
     for r in rows:
         s = pegrun.syms(r["text"])
         if s is None or r["steps"] > cap or r["steps"] == 0:
